@@ -172,11 +172,20 @@ def x_md5_resets(report):
 
 EXTRACTORS = [("scaled", x_scaled), ("md5_resets", x_md5_resets)]
 
-try:
-    from translate_more import EXTRACTORS as MORE
-    EXTRACTORS = EXTRACTORS + MORE
-except ImportError:
-    pass
+def _discover():
+    """harness/translators/<x>.py modules contribute EXTRACTORS = [(name, fn(report) -> lean text)]"""
+    import importlib
+    import sys
+    d = os.path.join(VERIF, "harness", "translators")
+    sys.path.insert(0, os.path.join(VERIF, "harness"))
+    out = []
+    if os.path.isdir(d):
+        for f in sorted(os.listdir(d)):
+            if f.endswith(".py") and f != "__init__.py":
+                m = importlib.import_module("translators." + f[:-3])
+                out += list(m.EXTRACTORS)
+    return out
+
 
 HEADER = """/- GENERATED by harness/translate.py from /repo's working tree. Do not edit by hand;
    the committed copy is only a bootstrap and is overwritten on every run. -/
@@ -192,7 +201,7 @@ def run():
     report = {"inputs": {}, "outputs": {}, "ok": True}
     parts = [HEADER]
     try:
-        for name, fn in EXTRACTORS:
+        for name, fn in EXTRACTORS + _discover():
             parts.append(fn(report))
     except Unrecognised as e:
         report.update(ok=False, failed=e.what, why=e.why)
